@@ -1,5 +1,7 @@
 import ShVerif.Model.C04
 import ShVerif.Proofs.C04
+import ShVerif.Proofs.C04Change
+import ShVerif.Proofs.C04Bridge
 /-
   C04 — Simplify preserves behaviour.  Property theorems (statements are fixed; helper lemmas live
   in ShVerif/Proofs/C04.lean).  Where the unchanged code violates the property the full statement
@@ -184,6 +186,52 @@ theorem subshell_negated_differs :
     inlineSub 5 [.mk true false (.sub [.mk false false (.exit 3)])] =
       [.mk true false (.sub [.mk false false (.exit 3)])] := by
   refine ⟨by rfl, by rfl, by rfl⟩
+
+/-! ## The whole-tree model (the one tied to `syntax.Simplify` on every run) -/
+
+/-- Simplify reports `true` exactly when it changed the tree. -/
+theorem reports_change (n : Node) : (simplify n).2 = true ↔ (simplify n).1 ≠ n :=
+  reports_change_aux n
+
+/-- The model's fuel never runs out: every fuel above the weight of the tree (≤ 2·size) gives the
+    result of `simplify`. -/
+theorem simplify_fuel_irrelevant (f : Nat) (n : Node) (h : weight n < f) : simp f n = simplify n :=
+  simp_fuel_irrelevant f n h
+
+/-- Every rewrite makes the tree lighter (nodes + number of `=` operators): Simplify never grows it. -/
+theorem simplify_weight_le (n : Node) : weight (simplify n).1 ≤ weight n := simp_weight_le _ n
+
+/-- On an embedded arithmetic expression the tied model is the typed `Arith.top` … -/
+theorem arith_model_agrees (q c : Nat) (ty : Ty)
+    (hty : ty = .arithmExp ∨ ty = .arithmCmd ∨ ty = .parenArithm) (a : List Nat) (v : Bytes) (e : Arith) :
+    (simplify (.mk ty a v [e.toNode q c])).1 = .mk ty a v [e.top.toNode q c] :=
+  simplify_arith_holder q c ty hty a v e
+
+/-- … hence, end to end: what `Simplify` leaves in `$(( e ))` evaluates like `e` (interpreter). -/
+theorem arith_sem_tied (q c : Nat) (a : List Nat) (v : Bytes) (e : Arith)
+    (P : Prims) (hP : P.Lawful) (env : Env) (hw : e.WF P) (hE : env.NoNames) :
+    ∃ e', (simplify (.mk .arithmExp a v [e.toNode q c])).1 = .mk .arithmExp a v [e'.toNode q c] ∧
+      evalI P env e' = evalI P env e :=
+  ⟨e.top, simplify_arith_holder q c .arithmExp (Or.inl rfl) a v e, arith_sem_partial P hP env e hw hE⟩
+
+/-- On an embedded `[[ ]]` expression the tied model is the typed `Test.top`. -/
+theorem test_model_agrees (a : List Nat) (v : Bytes) (x : Test) (h : x.WF) :
+    (simplify (.mk .testClause a v [x.toNode])).1 = .mk .testClause a v [(Test.top x).toNode] :=
+  simplify_testClause a v x h
+
+theorem test_sem_tied (a : List Nat) (v : Bytes) (x : Test) (h : x.WF) (S : TSem)
+    (hq : x.QuoteInsensitive S) :
+    ∃ x', (simplify (.mk .testClause a v [x.toNode])).1 = .mk .testClause a v [x'.toNode] ∧
+      S.eval x' = S.eval x :=
+  ⟨Test.top x, simplify_testClause a v x h, test_sem_partial S x hq⟩
+
+/-- On a word that is one double-quoted literal the tied model applies `rewriteDq`. -/
+theorem word_model_agrees (a : List Nat) (v : Bytes) (d : Nat) (lit : Bytes) :
+    (simplify (dqWord a v d lit)).1 =
+      .mk .word a v [match rewriteDq lit with
+       | some nv => .mk .sgl [d] nv []
+       | none => .mk .dbl [d] [] [.mk .lit [] lit []]] :=
+  simplify_dqWord a v d lit
 
 /-! Non-vacuity -/
 example : rewriteDq [92, 36, 97] = some [36, 97] := by decide          -- "\$a" → '$a'
